@@ -213,6 +213,7 @@ class ConnectHooks(Hooks):
         if wp is None:
             return True
         ans = True
+        cols_seen = set()
         for cj in sqlt.conjuncts(wp[0]):
             if cj[0] != "cmp" or cj[1] != "=":
                 raise AnalysisError(f"connect model: unexpected existence conjunct {cj!r}")
@@ -225,6 +226,7 @@ class ConnectHooks(Hooks):
             elif lhs[0] == "col":
                 col = lhs[1]
             holes = [p for p in rhs[1] if not isinstance(p, str)] if rhs[0] == "lit" else []
+            cols_seen.add(col)
             if col == "CATALOG_NAME" and holes and _is_db_hole(holes[0]):
                 st.facts.append(("upper-wrapped", "catalog_name", wrapped, site))
                 st.facts.append(("folded", "catalog_name value", _folded(holes[0]), site))
@@ -238,6 +240,9 @@ class ConnectHooks(Hooks):
                 ans = ans and exists
             else:
                 raise AnalysisError(f"connect model: unexpected existence conjunct on {col} {rhs!r}")
+        if "SCHEMA_NAME" in cols_seen:
+            # a schema of the same name may exist in another database of the instance
+            st.facts.append(("scoped to the connection's database (catalog_name conjunct)", "schema existence check", "CATALOG_NAME" in cols_seen, site))
         return ans
 
 
